@@ -291,7 +291,6 @@ func genC08(g *Gen) {
 		}
 		g.Run("many draws x generator states", []Ev{{"op": "rndmany", "mgr": "unsafe", "name": name, "count": g.Pick(20_000_000, 400_000_000), "rseed": int(g.Seed) + 7}})
 	}
-	coll := functions.NewDefaultFunctionCollection()
 	spell := func(n string, rr *rand.Rand) []string {
 		mixed := []rune(n)
 		for i := range mixed {
@@ -371,8 +370,7 @@ func genC08(g *Gen) {
 			}
 		}
 	}
-	for _, fn := range coll.GetAll() {
-		name := fn.Name()
+	for _, name := range defaultFnNames {
 		canon := strings.ToLower(name)
 		for si, sp := range spell(name, r) {
 			for _, mgr := range []string{"unsafe", "safe"} {
